@@ -68,19 +68,36 @@ impl ConnectionStats {
     pub fn acked_packet(&mut self, sent_at: Duration, current_time: Duration) { unimplemented!() }
 }
 
-/// rule D18 -- ASSUMED: the loop `for (&sequence, _) in self.sent_packets.range(range) { new_acks.push(sequence) }` as a whole, i.e. std's
-/// `BTreeMap::range` over a half-open range: the keys inside the range, ascending, each once, appended to `new_acks`.  std panics when
-/// start > end: kept as a precondition.  (Any other range type does not type-check against this summary: undecided, never an alarm.)
+/// the two range types `BTreeMap::range` is modelled for: bounds as (inclusive low, exclusive high) and std's no-panic condition
+pub trait RangeModel {
+    spec fn lo(&self) -> int;
+    spec fn hi(&self) -> int;
+    spec fn valid(&self) -> bool;
+}
+impl RangeModel for Range<u64> {
+    open spec fn lo(&self) -> int { self.start as int }
+    open spec fn hi(&self) -> int { self.end as int }
+    open spec fn valid(&self) -> bool { self.start <= self.end }      // std: "range start is greater than range end" panics
+}
+impl RangeModel for core::ops::RangeInclusive<u64> {
+    open spec fn lo(&self) -> int { self@.start as int }
+    open spec fn hi(&self) -> int { self@.end + 1 }
+    open spec fn valid(&self) -> bool { self@.start <= self@.end }
+}
+
+/// rule D18 -- ASSUMED: the loop `for (&sequence, _) in self.sent_packets.range(R) { new_acks.push(sequence) }` as a whole, i.e. std's
+/// `BTreeMap::range`: the keys inside the range, ascending, each once, appended to `new_acks`.  std panics when start > end: kept as a
+/// precondition.  Modelled for `a..b` and `a..=b`; any other range type does not type-check against this summary (undecided, never an alarm).
 #[verifier::external_body]
-pub fn collect_acked_in_range(sent_packets: &BTreeMap<u64, PacketSent>, range: Range<u64>, new_acks: &mut Vec<u64>)
-    requires range.start <= range.end,
+pub fn collect_acked_in_range<R: core::ops::RangeBounds<u64> + RangeModel>(sent_packets: &BTreeMap<u64, PacketSent>, range: R, new_acks: &mut Vec<u64>)
+    requires range.valid(),
     ensures
         final(new_acks)@.len() >= old(new_acks)@.len(),
         final(new_acks)@.subrange(0, old(new_acks)@.len() as int) == old(new_acks)@,
         forall|j: int| old(new_acks)@.len() <= j < final(new_acks)@.len() ==>
-            sent_packets@.contains_key(#[trigger] final(new_acks)@[j]) && range.start <= final(new_acks)@[j] < range.end,
+            sent_packets@.contains_key(#[trigger] final(new_acks)@[j]) && range.lo() <= final(new_acks)@[j] < range.hi(),
         forall|a: int, b: int| old(new_acks)@.len() <= a < b < final(new_acks)@.len() ==> final(new_acks)@[a] < final(new_acks)@[b],
-        forall|q: u64| sent_packets@.contains_key(q) && range.start <= q < range.end ==>
+        forall|q: u64| sent_packets@.contains_key(q) && range.lo() <= q < range.hi() ==>
             exists|j: int| old(new_acks)@.len() <= j < final(new_acks)@.len() && #[trigger] final(new_acks)@[j] == q,
 { unimplemented!() }
 
@@ -348,7 +365,7 @@ impl RenetClient {
                     proof {
                         let na1 = new_acks@;
                         assert(rv[k3] == (rs[k3].start, rs[k3].end));
-                        assert forall|j: int| 0 <= j < na1.len() implies s1.sent_packets@.contains_key(#[trigger] na1[j]) && Self::in_some_range(rv, na1[j]) by {
+                        assert forall|j: int| 0 <= j < na1.len() implies s1.sent_packets@.contains_key(#[trigger] na1[j]) && Self::in_some_range(rv, na1[j]) by {   // @C08 process_packet.what_the_lookup_collects_lies_inside_the_received_range
                             if j < na0.len() { assert(na1.subrange(0, na0.len() as int)[j] == na1[j]); }
                         }
                         assert forall|a: int, b: int| 0 <= a < b < na1.len() implies na1[a] < na1[b] by {
